@@ -194,6 +194,22 @@ chk("C04", "latx+envx", "exploration",
     "Lattice resolution L/40 (L/80) plus local refinement: a violation confined to a region much smaller than that and "
     "away from the largest ratios can escape.", "DESIGN.md §5/C04")
 
+chk("C01", "latx+envx", "exploration",
+    "exhaustive evaluation of the one-leg transition kernel of every interaction event-handler class: on a lattice of "
+    "(handler class, potential, box length, charges, geometry, direction) settings the real handler is driven with "
+    "scripted energy budgets and confirmation draws; its proposal rate (derivative of the budget-to-time map, located "
+    "by bisection) times its acceptance probability (the exact set of accepted uniform draws) is compared with "
+    "max(0, q_F) of an independently coded model energy (own Ewald sum); lifting flow balance and cell-veto proposals "
+    "are evaluated with the exact oracles of C05 / C18; plus deviation-bounded exploration of the real mediator on all "
+    "configurations (end-of-chain resampling, candidates computed from the current state, hard-core states)",
+    "Every explored leg is shown to be an exact step of the factorised Metropolis filter for the model energy; "
+    "stationarity of the Boltzmann distribution then follows from the event-chain theorem (trusted), it is not "
+    "measured: no histograms, no convergence statement.",
+    "36 (handler class, potential, box) settings x 2-6 geometries x <= 3 times; real estimators for the cell-bounded "
+    "handlers are heuristic bounds (exceeding them is recorded, not judged); tolerance 2e-4 of the rate scale (finite "
+    "differences of the budget-to-time map); distributional convergence is outside a bounded exhaustive check (DESIGN "
+    "§8).", "DESIGN.md §5/C01")
+
 ENGINES = [
     {"name": "schedx", "path": "jfv/schedx.py", "serves_properties": ["C20"],
      "kind_free_text": "controlled cooperative scheduler over fake multiprocessing primitives; deviation-bounded "
